@@ -53,11 +53,12 @@ def main(ctx, pairs=None, budget_list=None, hist=None, selector=in_bounds, label
         "PERMISSIVE points of Logix.tla (zero counts, mid-element offsets, cross-type writes of representable values)",
     ]
     lines = []
-    for (t1, t2) in pairs:
-        name = "%s_%s" % (t1, t2)
+    configs = [(t1, t2, False) for (t1, t2) in pairs] + [("INT", "REAL", True)]
+    for (t1, t2, many) in configs:
+        name = "%s_%s%s" % (t1, t2, "_many" if many else "")
         budget = 4 if t1 not in ("LINT", "ULINT", "LREAL") else 8
-        logixlib.run_model(ctx, wd, t1, t2, budget, 2 if quick else 3, False, name)
-        cat = logixlib.run_emit(ctx, wd, t1, t2, budget, 1 if quick else 2, not quick, name)
+        logixlib.run_model(ctx, wd, t1, t2, budget, 2 if quick else 3, False, name, many=many)
+        cat = logixlib.run_emit(ctx, wd, t1, t2, budget, 1 if quick else 2, not quick, name, many=many)
         if ctx.machinery:
             return
         reqs = cat.reqs if selector is None else [q for q in cat.reqs if selector(q["r"], cat.cfg)]
